@@ -169,7 +169,8 @@ fn calculate_inter_character_delay(serial: &tokio_serial::SerialStream) -> tokio
     const MIN_DELAY: Duration = Duration::from_micros(1750);
 
     match serial.baud_rate() {
-        Ok(baud_rate) if baud_rate <= MAX_BAUD_RATE => {
+        // (a port may report 0, e.g. when it was opened with B0: there is no character time then)
+        Ok(baud_rate) if baud_rate > 0 && baud_rate <= MAX_BAUD_RATE => {
             let character_time = Duration::from_secs(NUM_BITS_IN_CHAR) / baud_rate;
             35 * character_time / 10 // multiply by 3.5
         }
